@@ -45,7 +45,7 @@ VSeq = z3.SeqSort(Val)
 VAL = DT("Val", Val)
 VSEQ = SEQ(VAL)
 TYPETAG = _Prim("typetag", I)
-COMPLEX = TUP(FLOAT, FLOAT)
+COMPLEX = core.CPX(FLOAT, FLOAT)
 
 # type tags: builtins have fixed small codes, every other class a code >= 100 with an arbitrary __name__
 TAGS = ["NoneType", "bool", "int", "float", "complex", "bytes", "str", "list", "tuple", "dict", "set", "frozenset", "Channel"]
@@ -1128,6 +1128,25 @@ def declare_toplevel(w):
              lambda a, h: a.bytestring, lambda a: a.py2str_as_py3str, lambda a: a.py3str_as_py2str, True)
     toplevel("load", {"io": REF("BytesIO"), "py2str_as_py3str": BOOL, "py3str_as_py2str": BOOL}, {"py2str_as_py3str": False, "py3str_as_py2str": False},
              lambda a, h: h("BytesIO", a.io, "unread"), lambda a: a.py2str_as_py3str, lambda a: a.py3str_as_py2str, True)
+    # loads_internal(bytestring, channel-or-gateway-or-None, strconfig-or-None): an unversioned load whose switches come from the channel/gateway when one is
+    # given, else from strconfig, else are the class defaults (the pair a collected channel's callback keeps is passed this way, C12)
+    def li(variant, cgty, requires, f1, f2, inside):
+        w.add(Contract(f"{GB}:loads_internal", {"bytestring": BYTES, "channelfactory": cgty, "strconfig": STRCFG}, defaults={"channelfactory": None, "strconfig": None},
+                       requires=requires, modifies=lambda a, h: [("ChannelFactory", None, "$newcalls")],
+                       cases=[Case("value", restype=VAL, post=lambda a, h, h2, r: [r == decode_v(a.bytestring, False, f1(a, h), f2(a, h), inside(a, h))]),
+                              Case("eof", "raise", "EOFError"), Case("corrupt", "raise", "LoadError")] + (
+                           [Case("connection-closed", "raise", "OSError")] if variant != "none" else []),   # a carried channel and a factory that has finished
+                       props=["C12", "C13"], allocates=False), variant=variant)
+
+    given = lambda a: z3.Not(a.sv("strconfig").v[0])
+    li("none", NONE, None, lambda a, h: z3.If(given(a), a.sv("strconfig").v[1].v[0].v, cls_default[0]),
+       lambda a, h: z3.If(given(a), a.sv("strconfig").v[1].v[1].v, cls_default[1]), lambda a, h: z3.BoolVal(False))
+    li("channel", REF("Channel"), lambda a, h: [("channel-not-none", a.channelfactory != 0), ("channel-has-gateway", h("Channel", a.channelfactory, "gateway") != 0)],
+       lambda a, h: h.sv("Channel", a.channelfactory, "_strconfig").v[0].v, lambda a, h: h.sv("Channel", a.channelfactory, "_strconfig").v[1].v,
+       lambda a, h: h("BaseGateway", h("Channel", a.channelfactory, "gateway"), "_channelfactory") != 0)
+    li("gateway", REF("BaseGateway"), lambda a, h: [("gateway-not-none", a.channelfactory != 0)],
+       lambda a, h: h.sv("BaseGateway", a.channelfactory, "_strconfig").v[0].v, lambda a, h: h.sv("BaseGateway", a.channelfactory, "_strconfig").v[1].v,
+       lambda a, h: h("BaseGateway", a.channelfactory, "_channelfactory") != 0)
     w.contracts[f"{GB}:loads"].modifies = lambda a, h: [("ChannelFactory", z3.IntVal(0), "$newcalls")]
     w.contracts[f"{GB}:load"].requires = lambda a, h: [("io-not-none", a.io != 0)]
     # consumes the stream; the ghost call counter of the (absent: null) channel factory is formally in the callee's frame
